@@ -60,7 +60,11 @@ impl<T: RealNumber, M: Matrix<T>> InteriorPointOptimizer<T, M> {
 
         let y = M::from_row_vector(y.sub_scalar(y.mean())).transpose();
 
-        let mut max_ls_iter = 100;
+        // The step is halved each time, so after about 1075 halvings it underflows to zero and
+        // the sufficient-decrease test holds trivially: a finite search always ends before this
+        // bound, as it did when the counter was never advanced; only a non-finite direction
+        // runs into it.
+        let max_ls_iter = 1100;
         let mut pitr = 0;
         let mut w = M::zeros(p, 1);
         let mut neww = w.clone();
@@ -162,7 +166,7 @@ impl<T: RealNumber, M: Matrix<T>> InteriorPointOptimizer<T, M> {
             s = T::one();
             let gdx = grad.dot(&dxu);
 
-            let lsiter = 0;
+            let mut lsiter = 0;
             while lsiter < max_ls_iter {
                 for i in 0..p {
                     neww.set(i, 0, w.get(i, 0) + s * dx.get(i, 0));
@@ -183,7 +187,7 @@ impl<T: RealNumber, M: Matrix<T>> InteriorPointOptimizer<T, M> {
                     }
                 }
                 s = beta * s;
-                max_ls_iter += 1;
+                lsiter += 1;
             }
 
             if lsiter == max_ls_iter {
